@@ -247,7 +247,7 @@ class Walker:
         store[key] = cap(v)
 
 
-def summaries(g, item_arg=2, self_arg=1, pure_extra=(), limit=60000, maxd=MAXD):
+def summaries(g, item_arg=2, self_arg=1, pure_extra=(), limit=60000, maxd=MAXD, track=None):
     """list of (summary, key) for every return of g, and the predecessor map for witnesses"""
     W = Walker(g, item_arg, self_arg)
     _maxd[0] = maxd
@@ -312,6 +312,11 @@ def summaries(g, item_arg=2, self_arg=1, pure_extra=(), limit=60000, maxd=MAXD):
                 av = W.val(args[1], store, vals) if len(args) > 1 else None
                 events = events + (('emit', m, av),)
                 res = ('unit',)
+            elif track and name in track and kind in ('call', 'enter'):
+                # a call the rule wants to see as an event, with the provenance of its arguments
+                k = len([e for e in events if e[0] == 'call'])
+                events = events + (('call', track[name], tuple(W.val(a, store, vals) for a in args)),)
+                res = ('tracked', track[name], k)
             elif name in FN_CALLS and kind == 'call' and args:
                 cp = W.place_path(args[0])
                 argv = W.val(args[1], store, vals) if len(args) > 1 else ('tuple', ())
